@@ -267,7 +267,7 @@ def run(tier, seed, model_ok, translator, search=False):
             _one([[s], ["y"]], {"classify_top": s}, out, ops, pending, model_ok, prefix_rng=None, record=False)
 
     # (b) classifier through the API: context **t / s / y
-    alpha = ["*", ":", "a", " ", "\n", "\t", "é", "\u00a0", "\x1c"] if thorough else ["*", ":", "a", " ", "\n", "é"]
+    alpha = ["*", ":", "a", " ", "\n", "\t", "é", "\u00a0", "\x1c"]
     maxlen = 5 if thorough else 4
     n_cls = 0
     for L in range(0, maxlen + 1):
@@ -331,6 +331,17 @@ def run(tier, seed, model_ok, translator, search=False):
         _one(rows, {"seed": seed, "index": i, "rows": grid_to_json(rows)}, out, ops, pending, model_ok,
              prefix_rng=rng, record=(i < 3))
     out.count("random_sequences", n_rand)
+
+    # (c3) long inputs: origin rows beyond 255 and beyond 65535 (one long sequence of each size per run)
+    for n_long in ([300, 70000] if not thorough else [300, 5000, 70000, 200000]):
+        kinds = [rng.choice(KINDS) if rng.random() < 0.2 else "plain" for _ in range(n_long)]
+        rows = [list(rng.choice(KIND_SPELLINGS[k])) for k in kinds]
+        out.count("long_sequences")
+        _one(rows, {"seed": seed, "long": n_long, "rows": grid_to_json(rows)}, out, ops, pending, model_ok,
+             prefix_rng=None, record=False)
+
+    # (c4) the same segmentation through read_csv: a text with every kind of block, split into rows by the reader
+    csv_route(rng, out, 400 if thorough else 60)
 
     # (d) the same segmentation through read_excel: leading empty rows of a sheet count as rows
     excel_route(rng, out, 40 if thorough else 8)
@@ -434,6 +445,51 @@ def _interleaved(rows, other, out, case, canon, run_alone, parse_blocks):
     if r1 != alone:
         out.fail("a reader delivers other blocks when a second reader (another output form) is consumed alongside it",
                  case, r1, alone, key="interleaved_readers")
+
+
+def csv_route(rng, out, n):
+    """kind sequences with text cells only, written as a CSV text (one line per row) and read with
+    read_csv(to='cellgrid'): the blocks delivered are those of the segmentation of the rows the text denotes — same
+    types in the same order, and every TABLE block is exactly its rows"""
+    import io
+    import warnings
+    import pdtable
+    for i in range(n):
+        kinds = [rng.choice(KINDS) for _ in range(rng.randint(0, 14))]
+        rows = []
+        for k in kinds:
+            r = [c for c in rng.choice(KIND_SPELLINGS[k])]
+            if any(not isinstance(c, str) for c in r) or any("\n" in c or "\r" in c or ";" in c for c in r):
+                r = [""] if k in ("blank1", "empty", "nontext") else ["x"]
+            rows.append(r)
+        text = "".join(";".join(r) + "\n" for r in rows)
+        if rng.random() < 0.3 and text.endswith("\n"):
+            text = text[:-1]                      # no final newline
+        # the rows that text denotes (a line without cells is one empty cell)
+        seen = [line.split(";") for line in text.split("\n")]
+        if text.endswith("\n") or text == "":
+            seen = seen[:-1]
+        want = ref_segment(seen)
+        case = {"csv_text": text}
+        out.evaluations += 1
+        out.count("csv_route")
+        try:
+            with warnings.catch_warnings():
+                warnings.simplefilter("ignore")
+                got = list(pdtable.read_csv(io.StringIO(text), sep=";", to="cellgrid"))
+        except Exception as e:  # noqa: BLE001
+            out.fail("read_csv(to='cellgrid') raised on a text of rows", case, repr(e)[:200], None,
+                     key="csv_route_raised:" + type(e).__name__)
+            continue
+        if [bt.name for bt, _ in got] != [b["ty"] for b in want]:
+            out.fail("read_csv does not deliver the blocks of the segmentation of its rows", case,
+                     [bt.name for bt, _ in got], [b["ty"] for b in want], key="csv_route:types")
+            continue
+        tabs_got = [[list(r) for r in b] for bt, b in got if bt.name == "TABLE"]
+        tabs_want = [b["rows"] for b in want if b["ty"] == "TABLE"]
+        if tabs_got != tabs_want:
+            out.fail("a TABLE block read through read_csv is not exactly its rows", case, tabs_got, tabs_want,
+                     key="csv_route:table_rows")
 
 
 def excel_route(rng, out, n):
